@@ -766,6 +766,15 @@ impl Cfg {
         }
     }
 
+    /// The directory the set lives in: a template without a directory part means the working directory.
+    pub fn effective_dir(&self) -> String {
+        if self.dir.is_empty() {
+            ".".to_string()
+        } else {
+            self.dir.clone()
+        }
+    }
+
     pub fn to_json(&self) -> Json {
         json!({"dir": self.dir, "prefix": self.prefix, "ext": self.ext, "roll_by": self.roll.name(),
                "max_files": self.max_files, "max_file_size_bytes": self.max_size, "separator": self.sep})
